@@ -1,10 +1,9 @@
 (* C01.Covered — the constructors (and flag values) the theorems of Property.v speak about.
    [coveredb e = true] iff every node of e is
-     - a class whose multiplication code is transcribed in Model.mm AND whose lemma is proved, and
-     - not one of the two cells where the pinned library is known to be defective:
-         Chol _ true      (CholLinearOperator(upper=True): _matmul computes R R^T, the meaning is R^T R)
-         Zero (_ :: _)    (ZeroLinearOperator with a batch shape: _matmul drops the operator's batch shape)
-       both refuted in Property.v (C01_chol_upper_refuted, C01_zero_batch_refuted).
+     a class whose multiplication code is transcribed in Model.mm AND whose lemma is proved.  (Up to round 3 two cells of the
+     originally pinned library were excluded and refuted - Chol _ true: _matmul computed R R^T; Zero with a batch shape: the
+     batch shape was dropped.  Both are repaired in the tree under test (fix commits), Model.v follows the repaired code and
+     both cells are covered now.)
    NOT covered (yet): Mul over operands whose root is itself a structured operator (the model then uses the root's dense
    meaning); BatchRepeat over a RECTANGULAR base that really tiles a batch dimension of size > 1 (the branch of _matmul
    that relies on broadcasting is wrong exactly there, finding C01-batchrepeat-rect-tiling; without such tiling it is covered); Cat along a batch dimension with an EMPTY
@@ -34,8 +33,7 @@ Fixpoint coveredb (e : OpExpr) : bool :=
   match e with
   | Dense _ | UserMinimal _ | Diag _ | ConstantDiag _ _ | Identity _ _ | Toeplitz _ | Triangular _ _ => true
   | Kernel _ _ _ | TransposePermutation _ | Permutation _ => true
-  | Zero b _ _ => match b with [] => true | _ :: _ => false end
-  | Chol _ u => negb u
+  | Zero _ _ _ | Chol _ _ => true
   | Root r | LowRankRoot r => coveredb r
   | Kron ops | KronTriangular ops _ | Sum ops | PsdSum ops | KronDiag ops => forallb coveredb ops
   | KronAddedDiag a b | SumKron a b | AddedDiag a b | LowRankRootAddedDiag a b | Matmul a b => coveredb a && coveredb b
